@@ -237,6 +237,27 @@ Proof. exact (proj1 (dec_print_clean n)). Qed.
 
 Definition body_ok (b : body) : bool := src_ok (b_src b) && hdrs_ok (b_trailer b) && rd_no_crlf (b_ctype b).
 
+(* ---------------------------------------------------------------- bodies up to the normal form of their source *)
+Definition body_equiv (b b' : body) : Prop :=
+  b_chunked b' = b_chunked b /\ b_codec b' = b_codec b /\ b_ctype b' = b_ctype b /\ b_trailer b' = b_trailer b /\
+  src_pieces (b_src b') = src_pieces (b_src b) /\ src_ok (b_src b') = true.
+
+Lemma body_equiv_refl b : src_ok (b_src b) = true -> body_equiv b b.
+Proof. intros H. repeat split; try reflexivity. exact H. Qed.
+Lemma body_equiv_trans a b c : body_equiv a b -> body_equiv b c -> body_equiv a c.
+Proof. intros [A1 [A2 [A3 [A4 [A5 A6]]]]] [B1 [B2 [B3 [B4 [B5 B6]]]]]. repeat split; try congruence. Qed.
+Lemma body_len_equiv b : src_ok (b_src b) = true ->
+  exists b', body_len b = (blen (src_content (b_src b)), b') /\ body_equiv b b'.
+Proof.
+  intros H. rewrite body_len_spec. eexists. split; [reflexivity|]. repeat split; cbn [with_src b_src]; try reflexivity.
+  - apply src_after_pieces, H.
+  - apply src_after_ok.
+Qed.
+Lemma body_equiv_content b b' : body_equiv b b' -> src_content (b_src b') = src_content (b_src b).
+Proof. intros [_ [_ [_ [_ [H _]]]]]. unfold src_content. rewrite H. reflexivity. Qed.
+Lemma body_equiv_chunked b b' c : body_equiv b b' -> body_equiv (with_chunked b c) (with_chunked b' c).
+Proof. intros [A1 [A2 [A3 [A4 [A5 A6]]]]]. repeat split; cbn [with_chunked b_chunked b_codec b_ctype b_trailer b_src]; assumption. Qed.
+
 (* ---------------------------------------------------------------- requests *)
 Definition req_ok (q : request) : bool :=
   rd_token (q_method q) && target_ok (q_target q) && ver_ok (q_version q) &&
@@ -249,14 +270,49 @@ Definition req_ok (q : request) : bool :=
 
 Definition q_safe (q : request) : bool := mem_bytes (q_method q) SAFE_METHODS.
 
+(* header-only steps keep the invariant and do not touch the framing fields *)
+Lemma q_step_close_spec h : hdrs_ok h = true ->
+  hdrs_ok (q_step_close h) = true /\ hget H_TE (q_step_close h) = hget H_TE h /\ hget H_CL (q_step_close h) = hget H_CL h.
+Proof. intros H. unfold q_step_close. destruct (conn_is_close h); (split; [hok; reflexivity | split; hg; reflexivity]). Qed.
+Lemma q_step_host_spec host h : hdrs_ok h = true -> (match host with Some v => rd_no_crlf v | None => true end) = true ->
+  hdrs_ok (q_step_host host h) = true /\ hget H_TE (q_step_host host h) = hget H_TE h /\ hget H_CL (q_step_host host h) = hget H_CL h.
+Proof. intros H Hv. unfold q_step_host. destruct host; [destruct (hmem H_HOST h)|]; (split; [hok | split; hg; reflexivity]). Qed.
+Lemma q_step_tail_spec m h : hdrs_ok h = true ->
+  hdrs_ok (q_step_tail m h) = true /\ hget H_TE (q_step_tail m h) = hget H_TE h /\ hget H_CL (q_step_tail m h) = hget H_CL h.
+Proof. intros H. unfold q_step_tail. destruct (mem_bytes m REQ_TRACE_METHODS); (split; [hok; reflexivity | split; hg; reflexivity]). Qed.
+Lemma q_step_date_spec now m h b : hdrs_ok h = true -> rd_no_crlf now = true -> src_ok (b_src b) = true ->
+  exists h' b', q_step_date now m h b = (h', b') /\ hdrs_ok h' = true /\ hget H_TE h' = hget H_TE h /\ hget H_CL h' = hget H_CL h /\ body_equiv b b'.
+Proof.
+  intros H Hn Hs. unfold q_step_date. destruct (mem_bytes m REQ_DATED_METHODS).
+  - destruct (body_len_equiv b Hs) as [b' [E Hb]]. rewrite E. eexists. eexists. split; [reflexivity|].
+    destruct (_ && _); (split; [hok | split; [hg; reflexivity | split; [hg; reflexivity | exact Hb]]]).
+  - eexists. eexists. split; [reflexivity|]. repeat split; try assumption; try reflexivity.
+Qed.
+
+Lemma q_step_length_spec h b : hdrs_ok h = true -> te_simple h = true -> rd_no_crlf (b_ctype b) = true -> src_ok (b_src b) = true ->
+  let n := blen (src_content (b_src b)) in
+  exists h' b', q_step_length h b = Some (h', b') /\ hdrs_ok h' = true /\ hget H_TE h' = hget H_TE h /\
+    hget H_CL h' = (if hmem H_TE h then hget H_CL h else if 0 <? n then Some (dec_print n) else hget H_CL h) /\ body_equiv b b'.
+Proof.
+  intros H Ht Hc Hs n. unfold q_step_length. destruct (body_len_equiv b Hs) as [b1 [E1 Hb1]]. rewrite E1. fold n.
+  destruct (0 <? n) eqn:En.
+  - rewrite (hdr_chunked_simple h Ht). destruct Hb1 as [B1 [B2 [B3 [B4 [B5 B6]]]]].
+    destruct (body_len_equiv b1 B6) as [b2 [E2 Hb2]]. rewrite E2. unfold src_content. rewrite B5. fold (src_content (b_src b)). fold n.
+    assert (Hb : body_equiv b b2) by (apply (body_equiv_trans b b1 b2); [repeat split; assumption | exact Hb2]).
+    assert (Hc2 : rd_no_crlf (b_ctype b2) = true) by (destruct Hb as [_ [_ [E _]]]; rewrite E; exact Hc).
+    eexists. eexists. split; [reflexivity|].
+    destruct (hmem H_TE h); cbv iota; match goal with |- context [if hmem H_CT ?x then _ else _] => destruct (hmem H_CT x) end;
+      (split; [hok; try exact Hc2; apply dec_print_no_crlf | split; [hg; reflexivity | split; [hg; reflexivity | exact Hb]]]).
+  - eexists. eexists. split; [reflexivity|]. split; [exact H|]. split; [reflexivity|]. split; [destruct (hmem H_TE h); reflexivity | exact Hb1].
+Qed.
+
 Section Requests.
 Variable C : ccallees.
-Hypothesis HC : lsplit_clean C.
 
 Lemma q_prepare_framed vc now q q' : req_ok q = true -> rd_no_crlf now = true -> q_prepare now q = Some q' ->
   q_method q' = q_method q /\ q_target q' = q_target q /\ q_version q' = q_version q /\
-  hdrs_ok (q_hdrs q') = true /\ b_trailer (q_body q') = b_trailer (q_body q) /\ b_codec (q_body q') = b_codec (q_body q) /\
-  src_pieces (b_src (q_body q')) = (if q_safe q then [] else src_pieces (b_src (q_body q))) /\
+  hdrs_ok (q_hdrs q') = true /\ hdrs_ok (b_trailer (q_body q')) = true /\ b_codec (q_body q') = b_codec (q_body q) /\
+  src_pieces (b_src (q_body q')) = (if q_safe q then [] else src_pieces (b_src (q_body q))) /\ src_ok (b_src (q_body q')) = true /\
   exists fr, hframing (q_hdrs q') fr /\ body_matches C vc false fr (q_body q').
 Proof.
   intros Hok Hnow. unfold req_ok in Hok.
@@ -265,92 +321,384 @@ Proof.
   apply andb_true_iff in Hok as [Hok Hver]. apply andb_true_iff in Hok as [Hmethod Htarget].
   unfold body_ok in Hbody. apply andb_true_iff in Hbody as [Hbody Hct]. apply andb_true_iff in Hbody as [Hsrc Htr].
   apply negb_true_iff in Hcl. rewrite hmem_hget in Hcl. destruct (hget H_CL (q_hdrs q)) eqn:Ecl; [discriminate|]. clear Hcl.
-  unfold q_prepare, q_safe. destruct (mem_bytes (q_method q) SAFE_METHODS) eqn:Esafe.
-  - (* safe method: the body is dropped, chunked framing switched off *)
-    destruct (b_codec (q_body q)) eqn:Ecodec; [discriminate|].
-    rewrite (set_chunked_false_simple _ _ Hte).
-    assert (Hte1 : te_simple (hdel H_TE (q_hdrs q)) = true) by (unfold te_simple; hg; reflexivity).
-    rewrite (sync_chunked_simple _ _ Hte1). rewrite (hmem_hdel_same H_TE (q_hdrs q)).
-    rewrite body_len_spec. cbn [b_src with_chunked body_clear with_src]. change (src_content EMPTY_SRC) with (@nil byte).
-    change (0 <? blen []) with false. cbv iota.
-    match goal with |- context [if mem_bytes (q_method q) REQ_DATED_METHODS then ?a else ?b] =>
-      assert (Edate : (if mem_bytes (q_method q) REQ_DATED_METHODS then a else b) = b) end.
-    { destruct (mem_bytes (q_method q) REQ_DATED_METHODS); [|reflexivity]. rewrite body_len_spec. cbn [b_src with_src with_chunked]. reflexivity. }
-    rewrite Edate. clear Edate. intros E. injection E as <-. cbn [q_with q_method q_target q_version q_hdrs q_body with_src with_chunked b_trailer b_codec b_src].
-    repeat split; try reflexivity.
-    + destruct (q_host q); hok; try exact Hhost; reflexivity.
-    + exact Ecodec.
-    + exists FNone. split.
-      * apply HF_none; destruct (q_host q); destruct (conn_is_close _); destruct (mem_bytes _ REQ_TRACE_METHODS); unfold hsetdefault; repeat (destruct (hmem _ _)); hg; try reflexivity; exact Ecl.
-      * unfold body_matches, payload, coded. cbn [b_chunked b_codec b_src]. rewrite Ecodec. split; reflexivity.
-  - (* the body is sent *)
-    rewrite (sync_chunked_simple _ _ Hte). set (t := hmem H_TE (q_hdrs q)) in *.
-    set (h2 := if t then hdel H_CL (q_hdrs q) else q_hdrs q).
-    assert (Hh2 : hdrs_ok h2 = true) by (unfold h2; hok).
-    assert (Hte2 : hget H_TE h2 = if t then Some TE_CHUNKED else None).
-    { unfold h2. pose proof (te_simple_value _ Hte) as V. fold t in V. destruct t; hg; exact V. }
-    assert (Hcl2 : hget H_CL h2 = None) by (unfold h2; destruct t; hg; [reflexivity | exact Ecl]).
-    set (h3 := if conn_is_close h2 then hset H_CONNECTION CLOSE h2 else hdel H_CONNECTION h2).
-    assert (Hh3 : hdrs_ok h3 = true) by (unfold h3; hok; reflexivity).
-    assert (Hte3 : hget H_TE h3 = if t then Some TE_CHUNKED else None) by (unfold h3; destruct (conn_is_close h2); hg; exact Hte2).
-    assert (Hcl3 : hget H_CL h3 = None) by (unfold h3; destruct (conn_is_close h2); hg; exact Hcl2).
-    assert (Hts3 : te_simple h3 = true) by (unfold te_simple; rewrite Hte3; destruct t; reflexivity).
-    rewrite body_len_spec. cbn [b_src with_chunked with_src].
-    set (n := blen (src_content (b_src (q_body q)))).
-    set (s1 := src_after (b_src (q_body q))).
-    assert (Hs1 : src_content s1 = src_content (b_src (q_body q))) by (unfold s1, src_content; rewrite (src_after_pieces _ Hsrc); reflexivity).
-    (* step 4: Content-Length / Content-Type *)
-    match goal with |- match ?X with Some _ => _ | None => _ end = _ -> _ =>
-      assert (E4 : exists h4, X = Some (h4, with_src (with_chunked (q_body q) t) (if 0 <? n then src_after s1 else s1)) /\ hdrs_ok h4 = true /\
-                   hget H_TE h4 = (if t then Some TE_CHUNKED else None) /\
-                   hget H_CL h4 = (if t then None else if 0 <? n then Some (dec_print n) else None)) end.
-    { destruct (0 <? n) eqn:En.
-      - rewrite (hdr_chunked_simple _ Hts3). rewrite body_len_spec. cbn [b_src with_chunked with_src]. rewrite Hs1. fold n.
-        rewrite (hmem_hget H_TE h3), Hte3.
-        eexists. split; [reflexivity|]. split; [|split].
-        + destruct t; cbv iota; hok; try exact Hct; apply dec_print_no_crlf.
-        + destruct t; cbv iota; match goal with |- context [if hmem H_CT ?x then _ else _] => destruct (hmem H_CT x) end; hg; exact Hte3.
-        + destruct t; cbv iota; match goal with |- context [if hmem H_CT ?x then _ else _] => destruct (hmem H_CT x) end; hg; try exact Hcl3; reflexivity.
-      - eexists. split; [reflexivity|]. split; [exact Hh3|]. split; [exact Hte3|]. rewrite Hcl3. destruct t; reflexivity. }
-    destruct E4 as [h4 [E4 [Hh4 [Hte4 Hcl4]]]]. rewrite E4. clear E4.
-    set (b5 := with_src (with_chunked (q_body q) t) (if 0 <? n then src_after s1 else s1)).
-    assert (Hb5 : src_pieces (b_src b5) = src_pieces (b_src (q_body q))).
-    { unfold b5. cbn [b_src with_src]. destruct (0 <? n); unfold s1; rewrite ?src_after_after; apply (src_after_pieces _ Hsrc). }
-    (* the remaining steps touch neither framing field *)
-    match goal with |- context [if mem_bytes (q_method q) REQ_DATED_METHODS then ?a else ?b] =>
-      assert (Edate : exists h6 s6, (if mem_bytes (q_method q) REQ_DATED_METHODS then a else b) = (h6, with_src b5 s6) /\ hdrs_ok h6 = true /\
-                      hget H_TE h6 = hget H_TE h4 /\ hget H_CL h6 = hget H_CL h4 /\ src_pieces s6 = src_pieces (b_src (q_body q))) end.
-    { destruct (mem_bytes (q_method q) REQ_DATED_METHODS).
-      - rewrite body_len_spec. eexists. eexists. split; [reflexivity|]. split; [|split; [|split]].
-        + destruct (q_host q); hok; try exact Hhost; try exact Hnow.
-        + destruct (q_host q); repeat match goal with |- context [if ?c then _ else _] => destruct c end; hg; reflexivity.
-        + destruct (q_host q); repeat match goal with |- context [if ?c then _ else _] => destruct c end; hg; reflexivity.
-        + rewrite <- Hb5. unfold b5. cbn [b_src with_src]. destruct (0 <? n); unfold s1; rewrite ?src_after_after; reflexivity.
-      - exists (match q_host q with Some host => if hmem H_HOST h4 then h4 else hset H_HOST host h4 | None => h4 end), (b_src b5).
-        split; [destruct b5; reflexivity|]. split; [|split; [|split]].
-        + destruct (q_host q); hok; exact Hhost.
-        + destruct (q_host q); repeat match goal with |- context [if ?c then _ else _] => destruct c end; hg; reflexivity.
-        + destruct (q_host q); repeat match goal with |- context [if ?c then _ else _] => destruct c end; hg; reflexivity.
-        + exact Hb5. }
-    destruct Edate as [h6 [s6 [Edate [Hh6 [Hte6 [Hcl6 Hs6]]]]]]. rewrite Edate. clear Edate.
-    intros E. injection E as <-. cbn [q_with q_method q_target q_version q_hdrs q_body with_src with_chunked b_trailer b_codec b_src b5].
-    repeat split; try reflexivity.
-    + hok; reflexivity.
-    + exact Hs6.
-    + set (h8 := hsetdefault H_ACCEPT REQ_ACCEPT (hsetdefault H_UA REQ_USER_AGENT (if mem_bytes (q_method q) REQ_TRACE_METHODS then hdel H_WWW_AUTH (hdel H_COOKIE h6) else h6))).
-      assert (Hte8 : hget H_TE h8 = if t then Some TE_CHUNKED else None).
-      { unfold h8. destruct (mem_bytes _ REQ_TRACE_METHODS); hg; rewrite Hte6; exact Hte4. }
-      assert (Hcl8 : hget H_CL h8 = if t then None else if 0 <? n then Some (dec_print n) else None).
-      { unfold h8. destruct (mem_bytes _ REQ_TRACE_METHODS); hg; rewrite Hcl6; exact Hcl4. }
-      assert (Hpay : b_codec (q_body q) = None -> payload C vc (with_src (with_chunked (q_body q) t) s6) = src_content (b_src (q_body q))).
-      { intros Ec. unfold payload, coded. cbn [b_codec b_src with_src with_chunked]. rewrite Ec, Hs6. reflexivity. }
-      destruct t eqn:Et.
-      * exists FChunked. split; [apply HF_chunked; assumption | reflexivity].
-      * assert (Ec : b_codec (q_body q) = None) by (destruct (b_codec (q_body q)); [rewrite andb_false_r in Hcodec; discriminate | reflexivity]).
-        destruct (0 <? n) eqn:En.
-        -- exists (FLength n). split; [apply HF_length; assumption|]. unfold body_matches. cbn [b_chunked with_src with_chunked]. rewrite (Hpay Ec). split; reflexivity.
-        -- exists FNone. split; [apply HF_none; assumption|]. unfold body_matches. cbn [b_chunked with_src with_chunked]. rewrite (Hpay Ec). split; [reflexivity|].
-           apply N.ltb_ge in En. unfold n, blen in En. destruct (src_content (b_src (q_body q))); [reflexivity | cbn [List.length] in En; lia].
+  unfold q_prepare, q_step_safe, q_safe.
+  (* steps 1 and 2 give a header collection h2 and a body b2 *)
+  assert (S12 : exists h2 b2,
+    (match (if mem_bytes (q_method q) SAFE_METHODS then set_chunked false (q_hdrs q) (body_clear (q_body q)) else Some (q_hdrs q, q_body q)) with
+     | Some (h1, b1) => sync_chunked h1 b1 | None => None end) = Some (h2, b2) /\
+    hdrs_ok h2 = true /\ te_simple h2 = true /\ hget H_CL h2 = None /\ b_chunked b2 = hmem H_TE h2 /\
+    b_codec b2 = b_codec (q_body q) /\ b_ctype b2 = b_ctype (q_body q) /\ b_trailer b2 = b_trailer (q_body q) /\ src_ok (b_src b2) = true /\
+    src_pieces (b_src b2) = (if mem_bytes (q_method q) SAFE_METHODS then [] else src_pieces (b_src (q_body q))) /\
+    (b_codec (q_body q) <> None -> hmem H_TE h2 = true)).
+  { destruct (mem_bytes (q_method q) SAFE_METHODS) eqn:Esafe.
+    - rewrite (set_chunked_false_simple _ _ Hte).
+      assert (Hte1 : te_simple (hdel H_TE (q_hdrs q)) = true) by (unfold te_simple; hg; reflexivity).
+      rewrite (sync_chunked_simple _ _ Hte1). rewrite (hmem_hdel_same H_TE (q_hdrs q)). eexists. eexists. split; [reflexivity|].
+      repeat split; try reflexivity; try assumption.
+      + hok.
+      + hg. exact Ecl.
+      + rewrite (hmem_hdel_same H_TE (q_hdrs q)). reflexivity.
+      + intros Hne. destruct (b_codec (q_body q)); [discriminate | congruence].
+    - rewrite (sync_chunked_simple _ _ Hte). eexists. eexists. split; [reflexivity|].
+      pose proof (te_simple_value _ Hte) as V.
+      assert (Hm : hmem H_TE (if hmem H_TE (q_hdrs q) then hdel H_CL (q_hdrs q) else q_hdrs q) = hmem H_TE (q_hdrs q)).
+      { destruct (hmem H_TE (q_hdrs q)) eqn:E; [|exact E]. rewrite hmem_hdel_iff, E. reflexivity. }
+      repeat split; try reflexivity; try assumption.
+      + hok.
+      + unfold te_simple. destruct (hmem H_TE (q_hdrs q)); hg; rewrite V; reflexivity.
+      + destruct (hmem H_TE (q_hdrs q)); hg; [reflexivity | exact Ecl].
+      + cbn [with_chunked b_chunked]. symmetry. exact Hm.
+      + intros Hne. rewrite Hm. destruct (b_codec (q_body q)); [|congruence]. apply andb_true_iff in Hcodec as [_ Hc]. exact Hc. }
+  destruct S12 as [h2 [b2 [E12 [Hh2 [Hte2 [Hcl2 [Hch2 [Hco2 [Hct2 [Htr2 [Hs2 [Hp2 Hcod2]]]]]]]]]]]].
+  destruct (if mem_bytes (q_method q) SAFE_METHODS then _ else _) as [[h1 b1]|]; [|discriminate]. rewrite E12. clear E12.
+  destruct (q_step_close_spec h2 Hh2) as [Hh3 [Hte3 Hcl3]].
+  assert (Hts3 : te_simple (q_step_close h2) = true) by (unfold te_simple in *; rewrite Hte3; exact Hte2).
+  assert (Hct2' : rd_no_crlf (b_ctype b2) = true) by (rewrite Hct2; exact Hct).
+  destruct (q_step_length_spec (q_step_close h2) b2 Hh3 Hts3 Hct2' Hs2) as [h4 [b4 [E4 [Hh4 [Hte4 [Hcl4 Hb4]]]]]]. cbv zeta in Hcl4.
+  rewrite E4. clear E4.
+  destruct (q_step_host_spec (q_host q) h4 Hh4 Hhost) as [Hh5 [Hte5 Hcl5]].
+  assert (Hs4 : src_ok (b_src b4) = true) by (destruct Hb4 as [_ [_ [_ [_ [_ X]]]]]; exact X).
+  destruct (q_step_date_spec now (q_method q) _ b4 Hh5 Hnow Hs4) as [h6 [b6 [E6 [Hh6 [Hte6 [Hcl6 Hb6]]]]]]. rewrite E6. clear E6.
+  destruct (q_step_tail_spec (q_method q) h6 Hh6) as [Hh8 [Hte8 Hcl8]].
+  intros E. injection E as <-. cbn [q_with q_method q_target q_version q_hdrs q_body].
+  pose proof (body_equiv_trans _ _ _ Hb4 Hb6) as Hb. destruct Hb as [B1 [B2 [B3 [B4 [B5 B6]]]]].
+  split; [reflexivity|]. split; [reflexivity|]. split; [reflexivity|]. split; [exact Hh8|].
+  split; [rewrite B4, Htr2; exact Htr|]. split; [congruence|]. split; [congruence|]. split; [exact B6|].
+  (* the framing *)
+  assert (HTE : hget H_TE (q_step_tail (q_method q) h6) = hget H_TE h2) by congruence.
+  assert (Hm3 : hmem H_TE (q_step_close h2) = hmem H_TE h2) by (rewrite !hmem_hget, Hte3; reflexivity).
+  assert (HCL : hget H_CL (q_step_tail (q_method q) h6) =
+                if hmem H_TE h2 then None else if 0 <? blen (src_content (b_src b2)) then Some (dec_print (blen (src_content (b_src b2)))) else None).
+  { rewrite Hcl8, Hcl6, Hcl5, Hcl4, Hm3, Hcl3, Hcl2. destruct (hmem H_TE h2); [reflexivity|]. destruct (0 <? _); reflexivity. }
+  pose proof (te_simple_value _ Hte2) as V. rewrite <- HTE in V.
+  assert (Hpay : b_codec (q_body q) = None -> payload C vc b6 = src_content (b_src b2)).
+  { intros Ec. unfold payload, coded. rewrite B2, Hco2, Ec. cbn [encode_pieces]. unfold src_content. rewrite B5. reflexivity. }
+  destruct (hmem H_TE h2) eqn:Et.
+  - exists FChunked. split; [apply HF_chunked; assumption|]. unfold body_matches. rewrite B1. exact Hch2.
+  - assert (Ec : b_codec (q_body q) = None).
+    { destruct (b_codec (q_body q)) eqn:Ec; [|reflexivity]. assert (X : false = true) by (apply Hcod2; discriminate). discriminate. }
+    destruct (0 <? blen (src_content (b_src b2))) eqn:En.
+    + exists (FLength (blen (src_content (b_src b2)))). split; [apply HF_length; assumption|]. unfold body_matches. rewrite B1, (Hpay Ec). split; [exact Hch2 | reflexivity].
+    + exists FNone. split; [apply HF_none; assumption|]. unfold body_matches. rewrite B1, (Hpay Ec). split; [exact Hch2|].
+      apply N.ltb_ge in En. unfold blen in En. destruct (src_content (b_src b2)); [reflexivity | cbn [List.length] in En; lia].
 Qed.
 
 End Requests.
+
+(* ---------------------------------------------------------------- responses *)
+Definition codec_via_header (h : hdrs) (b : body) : bool :=
+  match b_codec b with None => true | Some _ => hmem H_CE h end.
+Definition resp_ok (r : response) : bool :=
+  ver_ok (r_version r) && code_ok (r_code r) && reason_ok (r_reason r) &&
+  hdrs_ok (r_hdrs r) && te_simple (r_hdrs r) && body_ok (r_body r) && codec_via_header (r_hdrs r) (r_body r).
+
+Lemma hdrs_ok_value h k v : hdrs_ok h = true -> hget k h = Some v -> rd_no_crlf v = true.
+Proof.
+  intros H. unfold hdrs_ok in H. apply andb_true_iff in H as [H _]. induction h as [|[k' v'] h IH]; cbn [hget]; [discriminate|].
+  cbn [forallb] in H. apply andb_true_iff in H as [Hkv Hh]. destruct (bytes_eqb k k'); [|exact (IH Hh)].
+  intros E. injection E as <-. unfold kv_ok in Hkv. cbn [fst snd] in Hkv. apply andb_true_iff in Hkv as [Hkv _]. apply andb_true_iff in Hkv as [_ Hv]. exact Hv.
+Qed.
+
+(* table facts *)
+Lemma status_remove_facts code ks : assoc_N code STATUS_REMOVE = Some ks ->
+  mem_bytes H_TE ks = false /\ (mem_bytes H_CL ks = true -> rfc_bodiless_status code = true).
+Proof.
+  assert (A : forallb (fun e : N * list bytes => negb (mem_bytes H_TE (snd e)) && implb (mem_bytes H_CL (snd e)) (rfc_bodiless_status (fst e))) STATUS_REMOVE = true)
+    by (vm_compute; reflexivity).
+  rewrite forallb_forall in A. intros E.
+  assert (Hin : In (code, ks) STATUS_REMOVE).
+  { clear A. induction STATUS_REMOVE as [|[c k] l IH]; cbn [assoc_N] in E; [discriminate|]. destruct (code =? c) eqn:Ec.
+    - apply N.eqb_eq in Ec. injection E as <-. subst. left. reflexivity.
+    - right. exact (IH E). }
+  specialize (A _ Hin). cbn [fst snd] in A. apply andb_true_iff in A as [A1 A2]. apply negb_true_iff in A1. split; [exact A1|].
+  intros H. rewrite H in A2. exact A2.
+Qed.
+Lemma status_allow_clean code v : assoc_N code STATUS_ALLOW = Some v -> rd_no_crlf v = true.
+Proof.
+  assert (A : forallb (fun e : N * bytes => rd_no_crlf (snd e)) STATUS_ALLOW = true) by (vm_compute; reflexivity).
+  rewrite forallb_forall in A. intros E.
+  assert (Hin : In (code, v) STATUS_ALLOW).
+  { clear A. induction STATUS_ALLOW as [|[c k] l IH]; cbn [assoc_N] in E; [discriminate|]. destruct (code =? c) eqn:Ec.
+    - apply N.eqb_eq in Ec. injection E as <-. subst. left. reflexivity.
+    - right. exact (IH E). }
+  exact (A _ Hin).
+Qed.
+Lemma bodiless_dropped code : code_ok code = true -> rfc_bodiless_status code = true -> no_body_status code = true.
+Proof.
+  unfold code_ok. intros H. apply andb_true_iff in H as [H1 H2]. apply N.leb_le in H1, H2.
+  assert (A : forallb (fun c => implb (rfc_bodiless_status c) (no_body_status c)) (map N.of_nat (seq 100 500)) = true) by (vm_compute; reflexivity).
+  rewrite forallb_forall in A. intros Hb. assert (Hin : In code (map N.of_nat (seq 100 500))) by (rewrite <- (N2Nat.id code); apply in_map, in_seq; lia).
+  specialize (A _ Hin). rewrite Hb in A. exact A.
+Qed.
+
+Lemma r_step_status_spec now code h : hdrs_ok h = true -> rd_no_crlf now = true ->
+  let h' := r_step_status now code h in
+  hdrs_ok h' = true /\ hget H_TE h' = hget H_TE h /\
+  hget H_CL h' = (match assoc_N code STATUS_REMOVE with Some ks => if mem_bytes H_CL ks then None else hget H_CL h | None => hget H_CL h end).
+Proof.
+  intros H Hn h'. unfold h', r_step_status. split; [|split].
+  - destruct (assoc_N code STATUS_ALLOW) eqn:Ea; destruct (assoc_N code STATUS_REMOVE); hok; try exact Hn; exact (status_allow_clean _ _ Ea).
+  - destruct (assoc_N code STATUS_REMOVE) as [ks|] eqn:Er; destruct (assoc_N code STATUS_ALLOW); hg;
+      try (rewrite (hget_hdel_all ks) by exact (proj1 (status_remove_facts _ _ Er))); hg; reflexivity.
+  - destruct (assoc_N code STATUS_REMOVE) as [ks|] eqn:Er; destruct (assoc_N code STATUS_ALLOW); hg; try reflexivity;
+      (destruct (mem_bytes H_CL ks) eqn:Em; [apply hget_hdel_all_in; exact Em | rewrite (hget_hdel_all ks _ _ Em); hg; reflexivity]).
+Qed.
+
+Lemma r_step_close_spec v code h : hdrs_ok h = true ->
+  let h' := r_step_close v code h in hdrs_ok h' = true /\ hget H_TE h' = hget H_TE h /\ hget H_CL h' = hget H_CL h.
+Proof.
+  intros H h'. unfold h', r_step_close, r_set_close.
+  destruct (_ && v11 v); [|destruct (_ && negb (v11 v)); [|destruct (conn_is_close h)]]; (split; [hok; reflexivity | split; hg; reflexivity]).
+Qed.
+
+Lemma r_step_ctype_spec h b : hdrs_ok h = true -> rd_no_crlf (b_ctype b) = true -> src_ok (b_src b) = true ->
+  exists h' b', r_step_ctype h b = (h', b') /\ hdrs_ok h' = true /\ hget H_TE h' = hget H_TE h /\ hget H_CL h' = hget H_CL h /\ body_equiv b b'.
+Proof.
+  intros H Hc Hs. unfold r_step_ctype. destruct (hmem H_CT h).
+  - eexists. eexists. split; [reflexivity|]. repeat split; try assumption; reflexivity.
+  - destruct (body_len_equiv b Hs) as [b1 [E1 Hb1]]. rewrite E1. eexists. eexists. split; [reflexivity|].
+    assert (Hc1 : rd_no_crlf (b_ctype b1) = true) by (destruct Hb1 as [_ [_ [E _]]]; rewrite E; exact Hc).
+    destruct (0 <? _); (split; [hok | split; [hg; reflexivity | split; [hg; reflexivity | exact Hb1]]]).
+Qed.
+
+Lemma r_step_ranges_spec code rm h b : hdrs_ok h = true -> te_simple h = true ->
+  exists h', r_step_ranges code rm h b = Some h' /\ hdrs_ok h' = true /\ hget H_TE h' = hget H_TE h /\ hget H_CL h' = hget H_CL h.
+Proof.
+  intros H Ht. unfold r_step_ranges. rewrite (hdr_chunked_simple h Ht). eexists. split; [reflexivity|].
+  set (h10 := if _ || hmem H_LAST_MODIFIED h then hsetdefault H_ACCEPT_RANGES ACCEPT_RANGES_VALUE h else h).
+  assert (H10 : hdrs_ok h10 = true) by (unfold h10; hok; reflexivity).
+  assert (T10 : hget H_TE h10 = hget H_TE h /\ hget H_CL h10 = hget H_CL h) by (unfold h10; destruct (_ || _); split; hg; reflexivity).
+  destruct T10 as [T10 C10].
+  assert (Hcr : rd_no_crlf (UNSAT_RANGE_PREFIX ++ match hget H_CL h10 with Some v => v | None => UNSAT_RANGE_NOLEN end) = true).
+  { unfold rd_no_crlf. rewrite forallb_app. apply andb_true_iff. split; [reflexivity|].
+    destruct (hget H_CL h10) eqn:E; [exact (hdrs_ok_value _ _ _ H10 E) | reflexivity]. }
+  destruct (code =? 416); destruct (mem_bytes rm REQ_TRACE_METHODS); (split; [hok | split; hg; assumption]).
+Qed.
+
+Section Responses.
+Variable C : ccallees.
+
+(* the framing announced by the prepared header collection and what the prepared body emits *)
+Lemma r_prepare_framed v29 vc now r r' : resp_ok r = true -> rd_no_crlf now = true -> r_prepare C v29 now r = Some r' ->
+  let bodiless := r_bodiless (r_code r) (r_rmethod r) in
+  r_version r' = r_version r /\ r_code r' = r_code r /\ r_reason r' = r_reason r /\ r_rmethod r' = r_rmethod r /\
+  hdrs_ok (r_hdrs r') = true /\ hdrs_ok (b_trailer (r_body r')) = true /\ src_ok (b_src (r_body r')) = true /\
+  src_pieces (b_src (r_body r')) = (if no_body_status (r_code r) || bytes_eqb (r_rmethod r) M_HEAD then [] else src_pieces (b_src (r_body r))) /\
+  exists fr, hframing (r_hdrs r') fr /\
+    (bodiless = false -> body_matches C vc false fr (r_body r') /\ (fr <> FChunked -> b_codec (r_body r') = None)) /\
+    (bodiless = true -> (v29 = Repaired \/ fr <> FChunked) -> body_octets C vc (r_body r') = []).
+Proof.
+  intros Hok Hnow. unfold resp_ok in Hok.
+  apply andb_true_iff in Hok as [Hok Hcodec]. apply andb_true_iff in Hok as [Hok Hbody]. apply andb_true_iff in Hok as [Hok Hte].
+  apply andb_true_iff in Hok as [Hok Hh]. apply andb_true_iff in Hok as [Hok Hreason]. apply andb_true_iff in Hok as [Hver Hcode].
+  unfold body_ok in Hbody. apply andb_true_iff in Hbody as [Hbody Hct]. apply andb_true_iff in Hbody as [Hsrc Htr].
+  unfold r_prepare. set (code := r_code r). set (rm := r_rmethod r).
+  set (b1 := if no_body_status code then body_clear (r_body r) else r_body r).
+  assert (Hb1 : b_chunked b1 = b_chunked (r_body r) /\ b_codec b1 = b_codec (r_body r) /\ b_ctype b1 = b_ctype (r_body r) /\ b_trailer b1 = b_trailer (r_body r) /\
+                src_ok (b_src b1) = true /\ src_pieces (b_src b1) = if no_body_status code then [] else src_pieces (b_src (r_body r))).
+  { unfold b1. destruct (no_body_status code); repeat split; try reflexivity; exact Hsrc. }
+  destruct Hb1 as [B1a [B1b [B1c [B1d [B1e B1f]]]]].
+  (* coding + sync *)
+  assert (S23 : forall x, r_step_coding C (r_hdrs r) b1 = Some x -> exists h3 b3,
+    sync_chunked (fst x) (snd x) = Some (h3, b3) /\ hdrs_ok h3 = true /\ te_simple h3 = true /\ (hmem H_TE h3 = true -> hget H_CL h3 = None) /\
+    b_chunked b3 = hmem H_TE h3 /\ (b_codec b3 <> None -> hmem H_TE h3 = true) /\ b_ctype b3 = b_ctype b1 /\ b_trailer b3 = b_trailer b1 /\ b_src b3 = b_src b1).
+  { intros [h2 b2]. unfold r_step_coding. cbn [fst snd].
+    destruct (hget H_CE (r_hdrs r)) as [ce|] eqn:Ece.
+    - destruct (cc_ce C ce) as [id|]; [|discriminate]. rewrite (set_chunked_true_simple _ _ Hte). intros E. injection E as <- <-.
+      set (h2 := hset H_TE TE_CHUNKED (hdel H_CL (r_hdrs r))).
+      assert (Hh2 : hdrs_ok h2 = true) by (unfold h2; hok; reflexivity).
+      assert (Ht2 : te_simple h2 = true) by (unfold te_simple, h2; hg; reflexivity).
+      assert (Hm2 : hmem H_TE h2 = true) by (unfold h2; rewrite hmem_hset_iff; reflexivity).
+      rewrite (sync_chunked_simple _ _ Ht2), Hm2. eexists. eexists. split; [reflexivity|].
+      assert (Hm3 : hmem H_TE (hdel H_CL h2) = true) by (rewrite hmem_hdel_iff, Hm2; reflexivity).
+      repeat split; try reflexivity.
+      + hok.
+      + unfold te_simple, h2. hg. reflexivity.
+      + intros _. hg. reflexivity.
+      + cbn [with_chunked b_chunked]. symmetry. exact Hm3.
+      + intros _. exact Hm3.
+    - intros E. injection E as <- <-. rewrite (sync_chunked_simple _ _ Hte). eexists. eexists. split; [reflexivity|].
+      assert (Hm : hmem H_TE (if hmem H_TE (r_hdrs r) then hdel H_CL (r_hdrs r) else r_hdrs r) = hmem H_TE (r_hdrs r)).
+      { destruct (hmem H_TE (r_hdrs r)) eqn:E; [|exact E]. rewrite hmem_hdel_iff, E. reflexivity. }
+      pose proof (te_simple_value _ Hte) as V.
+      repeat split; try reflexivity.
+      + hok.
+      + unfold te_simple. destruct (hmem H_TE (r_hdrs r)); hg; rewrite V; reflexivity.
+      + rewrite Hm. intros Ht. rewrite Ht. hg. reflexivity.
+      + cbn [with_chunked b_chunked]. symmetry. exact Hm.
+      + cbn [with_chunked b_codec]. rewrite B1b. intros Hne. unfold codec_via_header in Hcodec. rewrite hmem_hget, Ece in Hcodec.
+        destruct (b_codec (r_body r)); [discriminate | congruence]. }
+  destruct (r_step_coding C (r_hdrs r) b1) as [[h2 b2]|] eqn:E2; [|discriminate].
+  destruct (S23 _ eq_refl) as [h3 [b3 [E3 [Hh3 [Ht3 [Hcl3 [Hch3 [Hco3 [Hct3 [Htr3 Hsrc3]]]]]]]]]]. cbn [fst snd] in E3. rewrite E3. clear E3 S23.
+  set (t := hmem H_TE h3) in *.
+  pose proof (te_simple_value _ Ht3) as V3. fold t in V3.
+  (* length *)
+  assert (Hs3 : src_ok (b_src b3) = true) by (rewrite Hsrc3; exact B1e).
+  set (n := blen (src_content (b_src b1))).
+  assert (S4 : exists h4 b4, r_step_length h3 b3 = Some (h4, b4) /\ hdrs_ok h4 = true /\ hget H_TE h4 = hget H_TE h3 /\
+                 hget H_CL h4 = (if t then None else Some (dec_print n)) /\ body_equiv b3 b4).
+  { unfold r_step_length. rewrite (hdr_chunked_simple h3 Ht3). fold t. destruct t eqn:Et.
+    - eexists. eexists. split; [reflexivity|]. split; [exact Hh3|]. split; [reflexivity|]. split; [apply Hcl3; reflexivity | apply body_equiv_refl, Hs3].
+    - destruct (body_len_equiv b3 Hs3) as [b4 [E4 Hb4]]. rewrite E4, Hsrc3. fold n. eexists. eexists. split; [reflexivity|].
+      split; [hok; apply dec_print_no_crlf|]. split; [hg; reflexivity|]. split; [hg; reflexivity | exact Hb4]. }
+  destruct S4 as [h4 [b4 [E4 [Hh4 [Hte4 [Hcl4 Hb4]]]]]]. rewrite E4. clear E4.
+  destruct (r_step_status_spec now code h4 Hh4 Hnow) as [Hh7 [Hte7 Hcl7]].
+  destruct (r_step_close_spec (r_version r) code _ Hh7) as [Hh8 [Hte8 Hcl8]].
+  assert (Hct4 : rd_no_crlf (b_ctype b4) = true) by (destruct Hb4 as [_ [_ [E _]]]; rewrite E, Hct3, B1c; exact Hct).
+  assert (Hs4 : src_ok (b_src b4) = true) by (destruct Hb4 as [_ [_ [_ [_ [_ X]]]]]; exact X).
+  destruct (r_step_ctype_spec _ b4 Hh8 Hct4 Hs4) as [h9 [b9 [E9 [Hh9 [Hte9 [Hcl9 Hb9]]]]]]. rewrite E9. clear E9.
+  assert (Ht9 : te_simple h9 = true) by (unfold te_simple in *; rewrite Hte9, Hte8, Hte7, Hte4; exact Ht3).
+  destruct (r_step_ranges_spec code rm h9 b9 Hh9 Ht9) as [h13 [E13 [Hh13 [Hte13 Hcl13]]]]. rewrite E13. clear E13.
+  intros E. injection E as <-. cbv zeta. cbn [r_with r_version r_code r_reason r_rmethod r_hdrs r_body]. fold code rm.
+  pose proof (body_equiv_trans _ _ _ Hb4 Hb9) as Hb. destruct Hb as [G1 [G2 [G3 [G4 [G5 G6]]]]].
+  (* the final body *)
+  set (bf := r_step_head v29 code rm b9).
+  assert (Htrf : b_trailer bf = b_trailer (r_body r)).
+  { unfold bf, r_step_head. destruct v29; [|destruct (r_bodiless code rm)]; destruct (bytes_eqb rm M_HEAD); cbn; congruence. }
+  assert (Hsf : src_ok (b_src bf) = true).
+  { unfold bf, r_step_head. destruct v29; [|destruct (r_bodiless code rm)]; destruct (bytes_eqb rm M_HEAD); cbn; try reflexivity; exact G6. }
+  assert (Hpf : src_pieces (b_src bf) = if no_body_status code || bytes_eqb rm M_HEAD then [] else src_pieces (b_src (r_body r))).
+  { unfold bf, r_step_head. destruct v29; [|destruct (r_bodiless code rm)]; destruct (bytes_eqb rm M_HEAD); cbn [with_codec with_chunked body_clear with_src b_src];
+      rewrite ?orb_true_r, ?orb_false_r; try reflexivity; rewrite G5, Hsrc3, B1f; reflexivity. }
+  split; [reflexivity|]. split; [reflexivity|]. split; [reflexivity|]. split; [reflexivity|]. split; [exact Hh13|].
+  split; [rewrite Htrf; exact Htr|]. split; [exact Hsf|]. split; [exact Hpf|].
+  (* framing *)
+  assert (HTE : hget H_TE h13 = if t then Some TE_CHUNKED else None) by (rewrite Hte13, Hte9, Hte8, Hte7, Hte4; exact V3).
+  set (removed := match assoc_N code STATUS_REMOVE with Some ks => mem_bytes H_CL ks | None => false end).
+  assert (HCL : hget H_CL h13 = if t then None else if removed then None else Some (dec_print n)).
+  { rewrite Hcl13, Hcl9, Hcl8, Hcl7, Hcl4. unfold removed. destruct (assoc_N code STATUS_REMOVE) as [ks|]; [destruct (mem_bytes H_CL ks)|]; destruct t; reflexivity. }
+  assert (Hrem : removed = true -> r_bodiless code rm = true).
+  { unfold removed. destruct (assoc_N code STATUS_REMOVE) as [ks|] eqn:Er; [|discriminate]. intros Hm.
+    unfold r_bodiless. rewrite (proj2 (status_remove_facts _ _ Er) Hm). apply orb_true_r. }
+  exists (if t then FChunked else if removed then FNone else FLength n). split.
+  - destruct t; [apply HF_chunked; assumption|]. destruct removed; [apply HF_none | apply HF_length]; assumption.
+  - split.
+    + (* a body is sent *)
+      intros Hbl. assert (Hr : removed = false) by (destruct removed; [rewrite (Hrem eq_refl) in Hbl; discriminate | reflexivity]).
+      assert (Ehead : bytes_eqb rm M_HEAD = false) by (unfold r_bodiless in Hbl; apply orb_false_iff in Hbl as [X _]; exact X).
+      assert (Ebf : bf = b9) by (unfold bf, r_step_head; rewrite Hbl, Ehead; destruct v29; reflexivity).
+      rewrite Ebf, Hr. unfold body_matches. rewrite G1, Hch3. fold t. destruct t eqn:Et.
+      * split; [reflexivity|]. intros X. congruence.
+      * assert (Ec : b_codec b9 = None).
+        { rewrite G2. destruct (b_codec b3) eqn:Ec; [|reflexivity]. assert (X : false = true) by (apply Hco3; discriminate). discriminate. }
+        split; [|intros _; exact Ec]. split; [reflexivity|]. unfold payload, coded. rewrite Ec. cbn [encode_pieces].
+        unfold n, src_content. rewrite G5, Hsrc3. reflexivity.
+    + (* no body may be sent *)
+      intros Hbl Hv. unfold body_octets. rewrite body_iter_spec. cbn [fst].
+      assert (Hnp : src_pieces (b_src bf) = []).
+      { rewrite Hpf. unfold r_bodiless in Hbl. apply orb_true_iff in Hbl as [X|X]; [rewrite X, orb_true_r; reflexivity|].
+        rewrite (bodiless_dropped code Hcode X). reflexivity. }
+      unfold payload, coded. rewrite Hnp.
+      destruct v29.
+      * destruct Hv as [Hv|Hv]; [discriminate|]. destruct t eqn:Et; [congruence|].
+        assert (Ec : b_codec b9 = None).
+        { rewrite G2. destruct (b_codec b3) eqn:Ec; [|reflexivity]. assert (X : false = true) by (apply Hco3; discriminate). discriminate. }
+        unfold bf, r_step_head. destruct (bytes_eqb rm M_HEAD); cbn [body_clear with_src b_chunked b_codec]; rewrite G1, Hch3, Ec; reflexivity.
+      * unfold bf, r_step_head. rewrite Hbl. destruct (bytes_eqb rm M_HEAD); cbn [body_clear with_src with_chunked b_chunked b_codec]; destruct (b_codec b9); destruct vc; reflexivity.
+Qed.
+
+End Responses.
+
+(* ---------------------------------------------------------------- C05, clause 1 *)
+Section Main.
+Variable C : ccallees.
+Hypothesis HC : lsplit_clean C.
+
+(* what the reader must find: one message, this start line, this framing, this payload; the framing tells the truth *)
+Definition framed_as (is_req bodiless : bool) (d start : bytes) (fr : framing) (pl : bytes) : Prop :=
+  exists r, rd_message is_req bodiless d = Some r /\ rd_start r = start /\ rd_frame r = fr /\ rd_payload r = pl /\
+    (bodiless = false -> match fr with FChunked => True | FLength n => n = blen pl | FNone => pl = [] end).
+
+Lemma framed_wf is_req bodiless d start fr pl : framed_as is_req bodiless d start fr pl -> wf_http1 is_req bodiless d pl.
+Proof. intros [r [A [_ [_ [B _]]]]]. exists r. split; assumption. Qed.
+
+Definition q_content (vc : variant) (q : request) : bytes :=
+  concat_bytes (encode_pieces C vc (b_codec (q_body q)) (if q_safe q then [] else src_pieces (b_src (q_body q)))).
+
+Theorem request_framing vc now q q' : req_ok q = true -> rd_no_crlf now = true -> q_prepare now q = Some q' ->
+  exists fr, framed_as true false (fst (q_compose C vc q'))
+    (q_method q ++ SP :: q_target q ++ SP :: StartLine.proto_compose (q_version q)) fr (q_content vc q).
+Proof.
+  intros Hok Hnow Hp. destruct (q_prepare_framed C vc now q q' Hok Hnow Hp) as [Em [Et [Ev [Hh [Htr [Hco [Hpi [Hso [fr [Hf Hb]]]]]]]]]].
+  unfold req_ok in Hok.
+  apply andb_true_iff in Hok as [Hok _]. apply andb_true_iff in Hok as [Hok _]. apply andb_true_iff in Hok as [Hok _].
+  apply andb_true_iff in Hok as [Hok _]. apply andb_true_iff in Hok as [Hok _]. apply andb_true_iff in Hok as [Hok _].
+  apply andb_true_iff in Hok as [Hok Hver]. apply andb_true_iff in Hok as [Hmethod Htarget].
+  destruct (req_line_ok _ _ _ Hmethod Htarget Hver) as [L1 L2]. cbv zeta in L1, L2.
+  exists fr. unfold q_compose. rewrite body_iter_spec. cbn [fst]. rewrite Em, Et, Ev, req_line_shape.
+  set (line := q_method q ++ SP :: q_target q ++ SP :: StartLine.proto_compose (q_version q)) in *. rewrite <- (app_assoc line CRLF).
+  pose proof (message_read C HC vc true false _ (q_hdrs q') (q_body q') fr L2 L1 Hh Htr Hf Hb) as [r [R1 [R2 [R3 R4]]]].
+  unfold body_octets in R1. rewrite body_iter_spec in R1. cbn [fst] in R1.
+  exists r. split; [exact R1|]. split; [exact R2|]. split; [exact R3|].
+  assert (Epl : payload C vc (q_body q') = q_content vc q) by (unfold payload, coded, q_content; rewrite Hco, Hpi; reflexivity).
+  split; [rewrite R4; exact Epl|]. intros _. unfold body_matches in Hb. rewrite <- Epl. destruct fr; [exact (proj2 Hb) | exact (proj2 Hb) | exact I].
+Qed.
+
+Definition r_sent_pieces (r : response) : list bytes :=
+  if no_body_status (r_code r) || bytes_eqb (r_rmethod r) M_HEAD then [] else src_pieces (b_src (r_body r)).
+
+Theorem response_framing v29 vc now r r' : resp_ok r = true -> rd_no_crlf now = true -> r_prepare C v29 now r = Some r' ->
+  let bodiless := r_bodiless (r_code r) (r_rmethod r) in
+  (v29 = Repaired \/ bodiless = false \/ hmem H_TE (r_hdrs r') = false) ->
+  exists fr, framed_as false bodiless (fst (r_compose C vc r'))
+    (StartLine.proto_compose (r_version r) ++ SP :: StartLine.print_dec (r_code r) ++ SP :: r_reason r) fr
+    (if bodiless then [] else concat_bytes (encode_pieces C vc (b_codec (r_body r')) (r_sent_pieces r))) /\
+    (fr <> FChunked -> bodiless = false -> b_codec (r_body r') = None).
+Proof.
+  intros Hok Hnow Hp bodiless Hv.
+  destruct (r_prepare_framed C v29 vc now r r' Hok Hnow Hp) as [Ev [Ec [Er [Em [Hh [Htr [Hso [Hpi [fr [Hf [Hb1 Hb2]]]]]]]]]]]. cbv zeta in Hb1, Hb2. fold bodiless in Hb1, Hb2.
+  unfold resp_ok in Hok.
+  apply andb_true_iff in Hok as [Hok _]. apply andb_true_iff in Hok as [Hok _]. apply andb_true_iff in Hok as [Hok _].
+  apply andb_true_iff in Hok as [Hok _]. apply andb_true_iff in Hok as [Hok Hreason]. apply andb_true_iff in Hok as [Hver Hcode].
+  destruct (resp_line_ok _ _ _ Hver Hcode Hreason) as [L1 L2]. cbv zeta in L1, L2.
+  exists fr.
+  assert (Hbm : body_matches C vc bodiless fr (r_body r')).
+  { unfold body_matches. destruct bodiless eqn:Eb.
+    - apply Hb2; [reflexivity|]. destruct Hv as [Hv|[Hv|Hv]]; [left; exact Hv | discriminate | right].
+      intros ->. inversion Hf as [Ht _ | |]. rewrite hmem_hget, Ht in Hv. discriminate.
+    - exact (proj1 (Hb1 eq_refl)). }
+  split.
+  - unfold r_compose. rewrite body_iter_spec. cbn [fst]. rewrite Ev, Ec, Er, resp_line_shape.
+    set (line := StartLine.proto_compose (r_version r) ++ SP :: StartLine.print_dec (r_code r) ++ SP :: r_reason r) in *. rewrite <- (app_assoc line CRLF).
+    pose proof (message_read C HC vc false bodiless _ (r_hdrs r') (r_body r') fr L2 L1 Hh Htr Hf Hbm) as [res [R1 [R2 [R3 R4]]]].
+    unfold body_octets in R1. rewrite body_iter_spec in R1. cbn [fst] in R1.
+    exists res. split; [exact R1|]. split; [exact R2|]. split; [exact R3|].
+    assert (Epl : payload C vc (r_body r') = concat_bytes (encode_pieces C vc (b_codec (r_body r')) (r_sent_pieces r))).
+    { unfold payload, coded, r_sent_pieces. rewrite Hpi. reflexivity. }
+    split; [rewrite R4, Epl; reflexivity|]. intros Eb. rewrite Eb in *. unfold body_matches in Hbm. rewrite <- Epl.
+    destruct fr; [exact (proj2 Hbm) | exact (proj2 Hbm) | exact I].
+  - intros Hne Eb. exact (proj2 (Hb1 Eb) Hne).
+Qed.
+
+End Main.
+
+(* without content coding the framed payload is the content supplied *)
+Lemma encode_none C vc ps : concat_bytes (encode_pieces C vc None ps) = concat_bytes ps.
+Proof. reflexivity. Qed.
+
+(* finding D29 on the pinned tree: a HEAD response prepared with chunked framing still emits the last-chunk *)
+Definition C_plain : ccallees := {| cc_comp := fun _ d => d; cc_lsplit := fun _ v => [v]; cc_ce := fun _ => None |}.
+Definition D29_response : response :=
+  {| r_version := (1, 1); r_code := 200; r_reason := X "4f4b"; r_rmethod := M_HEAD;
+     r_hdrs := [(H_TE, TE_CHUNKED)];
+     r_body := {| b_src := SBytesIO (X "68656c6c6f") 0; b_chunked := true; b_codec := None; b_ctype := X "746578742f706c61696e"; b_trailer := [] |} |}.
+Definition D29_now : bytes := X "5468752c203031204a616e20313937302030303a31363a343020474d54".
+
+Lemma lsplit_clean_plain : lsplit_clean C_plain.
+Proof. intros k v H. cbn. rewrite H. reflexivity. Qed.
+
+Lemma head_chunked_refuted :
+  resp_ok D29_response = true /\
+  exists r', r_prepare C_plain AsFound D29_now D29_response = Some r' /\
+             forall pl, ~ wf_http1 false true (fst (r_compose C_plain AsFound r')) pl.
+Proof.
+  split; [vm_compute; reflexivity|]. eexists. split; [vm_compute; reflexivity|].
+  intros pl [res [H _]]. vm_compute in H. discriminate.
+Qed.
+Lemma head_chunked_repaired_example :
+  exists r', r_prepare C_plain Repaired D29_now D29_response = Some r' /\ wf_http1 false true (fst (r_compose C_plain AsFound r')) [].
+Proof. eexists. split; [vm_compute; reflexivity|]. eexists. split; vm_compute; reflexivity. Qed.
+
+Lemma hframing_never_both h fr : hframing h fr ->
+  (fr = FChunked -> hget H_CL h = None) /\ (forall n, fr = FLength n -> hget H_TE h = None).
+Proof. intros [Ht Hc | n Ht Hc | Ht Hc]; split; try discriminate; intros; assumption. Qed.
